@@ -63,8 +63,10 @@ PROPS = {
             "runs": [ctl("faults", 640, 30, 12000, 40, 11)], "modelled": CTL},
     "C03": {"lean": CTLMOD, "prefixes": ["c03_", "ctl_reachable_inv"],
             "runs": [ctl("membership", 480, 30, 9000, 40, 12)], "modelled": CTL},
-    "C04": {"lean": CTLMOD, "prefixes": ["c04_", "c18_consistent", "c09_start_fences_stale", "ctl_reachable_inv"],
-            "runs": [ctl("reads", 480, 30, 9000, 40, 13)], "modelled": CTL},
+    "C04": {"lean": CTLMOD + ["JivaVerif.Properties.C10Cluster"], "prefixes": ["c04_", "c18_consistent", "c09_start_fences_stale", "ctl_reachable_inv"],
+            "runs": [ctl("reads", 480, 30, 9000, 40, 13),
+                     {"engine": "clusterdiff", "profile": "healthy", "salt": 76, "quick": {"n": 96, "len": 40, "timeout": 900}, "thorough": {"n": 2000, "len": 50, "timeout": 3000}}],
+            "modelled": CTL + ["volume level ('a successful read always reflects every acknowledged write'): c04_rw_replicas_hold_epoch_acks over the whole-volume model — ANY history, no hypothesis: every RW replica holds every write acknowledged since the volume was last started (for earlier ones: c09_restart_serves_acked); tie: clusterdiff compares what every directory holds after every step and checks the statement itself on the implementation side"]},
     "C05": {"lean": CTLMOD + ["JivaVerif.Properties.C02Hist", "JivaVerif.Properties.C10Cluster"], "prefixes": ["c05_", "c02_failed_detached", "c02_in_service_holds_acked", "c18_removed_silent", "ctl_reachable_inv"],
             "runs": [ctl("faults", 640, 30, 12000, 40, 14), dict(rep("rebuild", 160, 30, 1500, 40, 48), **{"thorough": {"n": 1500, "len": 40, "timeout": 6000}})], "modelled": CTL + [
                 "integration: in the replicadiff rebuild profile one of three real RW replicas is killed (REST endpoint 503, data connections cut) behind the real remote backend / RPC client / monitoring; the write that follows must be acknowledged, the dead replica must leave the controller's list, and the survivors' images stay equal (requests killq, cmp)",
